@@ -305,9 +305,8 @@ func SubscribeWithReplay[T any](
 	}
 
 	// Replay missed events
-	var eventType = reflect.TypeOf((*T)(nil)).Elem()
 	// Use consistent type naming with EventType() function
-	typeName := eventType.String()
+	typeName := eventTypeNameOf[T]()
 	err = bus.Replay(ctx, lastOffset, func(stored *StoredEvent) error {
 		// Apply upcasts if available
 		eventData, eventTypeName := stored.Data, stored.Type
